@@ -41,6 +41,11 @@ def build(sizes=None, only=None, part=None):
     obs = thr2.build(sizes, only, ("C02",), part)
     if sizes is None and only is None and part in (None, "misc"):
         obs += build_alias()
+        # the statement speaks of the metric "as computed by the same Scores object": the count-space clauses above are about the
+        # decision rule; Scores.cm's cell-by-cell contract (C01's) links the two and is re-discharged here so that this check is
+        # closed under the contracts it uses (the rates as quotients of the cells are C04's obligations)
+        from props import c01
+        obs += c01.build_cm(None, "C02")
     return obs
 
 
@@ -96,6 +101,12 @@ def oracle(case):
         th = f(r)
         lims = [TH.counts_at(case, th, "below"), TH.counts_at(case, th, "above")]
         eps = Fraction(1, 10**9) * n_all          # the float target r is not exactly k/N
+        # "that metric, as computed by the same Scores object": the object's own rate at the returned threshold is the count by the
+        # documented rule over the whole population (easy samples included); Scores.cm's own contract is C01's obligation, this
+        # is the call-site use of it
+        own = float(getattr(s, case["metric"])(th))
+        if abs(own * n_all - TH.counts_at(case, th)) > 1e-9 * n_all:
+            return f"the object's own {case['metric']}({th!r}) = {own!r} is not the count by the documented rule {TH.counts_at(case, th)}/{n_all} {info}"
         if not (min(lims) - 1 - eps <= Kc <= max(lims) + 1 + eps):
             return f"threshold {th!r}: one-sided metric counts {lims} do not bracket clip(r*N)={float(Kc)} within one sample {info}"
         allv = {"tpr": case["pos"], "fnr": case["pos"], "tnr": case["neg"], "fpr": case["neg"]}.get(case["metric"], case["pos"] + case["neg"])
